@@ -63,7 +63,8 @@ def run(ck):
     ck.require_response("L2.second-value", cv, E.m_is_mem(GOOD), True, ret_false, "return false", until=accept, why="(a repeated Content-Length would replace or confirm the first silently)")
     ck.require_response("L2.second-value", cv, E.m_is_mem(GOOD), True, ev_assign(SANITIZE, E.m_const(1)), "needsSanitizing = true")
     ck.require_response("L2.second-value", cv, E.m_is_mem(GOOD), True, ev_assign(BAD, None), "sawBad = ...")
-    conf = [n for n, ds in defs.items() if len(ds) == 1 and E.norm(ds[0])[1] is False and E.m_cmp("==", E.m_is_mem(VALUE), E.m_is_ref(num))(E.norm(ds[0])[0])]
+    differs = E.m_cmp("==", E.m_is_mem(VALUE), E.m_is_ref(num)) | E.m_cmp("==", E.m_is_ref(num), E.m_is_mem(VALUE))
+    conf = [n for n, ds in defs.items() if len(ds) == 1 and E.norm(ds[0])[1] is False and differs(E.norm(ds[0])[0])]
     for s in ck.sites(fl, ev_assign(BAD, E.M(lambda t: E.const(t) is None, "computed")), "sawBad = <computed>", 1):
         need = sorted((E.key(t), v) for t, v in E.implied(s.ev["rhs"], False))
         want = sorted([("Config.onoff.relaxed_header_parser", True)] + [(c, False) for c in conf[:1]])
